@@ -562,6 +562,10 @@ def run_property(pid, tier, seed, out=sys.stdout):
                              paths=p.get('paths'), error=p.get('error'),
                              obligations=len(p.get('obligations', []))))
     assumptions = list(GLOBAL_ASSUMPTIONS) + sorted(eng.assumed) + ["assumed contract (not verified here): " + t for t in trusted]
+    if fp_evidence:
+        assumptions.append("EXCEPTION to 'machine floats are mathematical reals': the fp64:* obligations are stated and discharged in IEEE binary64 "
+                           "(round-to-nearest-even) by z3's FloatingPoint theory; they cover the elementwise statements of x_update_prox only "
+                           "(np.linalg.eigh and the matrix product q @ diag(e) @ q.T are outside)")
     ev = dict(property_id=pid, tier=tier, seed=seed, level='other' if pid == 'C15' else 'proof',
               coverage=dict(obligations=total, discharged=discharged,
                             checker_cmd="python3-vt /verif/pyvc/check.py %s --tier %s  (z3 %s via z3-solver; /usr/bin/cvc5 on z3 unknowns)" % (pid, tier, solve.z3.get_version_string()),
